@@ -1,5 +1,7 @@
 import NunavutVerif.Model.Strop
 import NunavutVerif.Gen.StropCfg
+import NunavutVerif.Model.StropGlue
+import NunavutVerif.Gen.StropGlue
 import NunavutVerif.Proto
 /-!
 Driver for the C09 correspondence.  One request per line (strings as '.'-joined code points, `-` = empty):
@@ -15,11 +17,21 @@ Driver for the C09 correspondence.  One request per line (strings as '.'-joined 
   `encfilter <lang> <s>`                         → `_encoding_filter` on a matched span
   `cfgrx <lang> <p|r> <ty> <idx> <op> <s>`       regex #idx of the generated configuration (p = reserved pattern,
                                                   r = encoding rule), op as below
+  `rawname <inst>`                               → `default_filter_id_for_target`: inst = `t<s>` | `i<n>` | `j<n>` (= -n) |
+                                                  `b0` | `b1` | `z` (None), prefixed by `N` for an object with that `.name`
+  `hist <maxsize> <rx> <op;op;…>`                a call history in one process (Model/StropGlue.lean), one answer per op, `;`-joined:
+      `L:<target>:<ov>`                          new LanguageContext, overrides `key=val&…` (`!` none), val = `s<s>` | `b0|b1` | `n<k>` |
+                                                  `l<s|s…>` | `d<ty>~<s|s…>/<ty>~…` (`!` = empty)      → `ctx <index>` | `err <kind>`
+      `U:<ctx>:<lang>:<inst>:<ty>`               ctx.get_language(lang).filter_id(inst, ty)
+                                                  → `ok <r> <built> <hit> <hits> <misses> <currsize>` | `err <kind> <built> …`
+      `O:<ctx>`                                  per language of the context: `<lang>=<list object #>,<len>,<hash>,<enc: none|same|own>,<len>,<hash>`
+      rx = extra `re.compile` table `<src>=<wire>&…` (`!` none)
   `rx <wire> <op> <s>`                           regex in Polish notation; op = `match` → end | `none`,
                                                   `search` → `start end` | `none`, `sub` → s with every match m
                                                   replaced by `<m>`
 -/
 open NunavutVerif NunavutVerif.Regex NunavutVerif.Strop NunavutVerif.Proto NunavutVerif.Gen.StropCfg
+open NunavutVerif.StropGlue
 
 def decodeS (s : String) : Option Str := (decodeStr s).map (fun cs => cs.map Char.toNat)
 
@@ -105,6 +117,156 @@ def showResult (r : Except Err (Str × Bool)) : String :=
   | .error .illegalToken => "err illegal-token"
   | .error .unstableEncoding => "err unstable-encoding"
 
+
+/-! ### round 2: the glue (Model/StropGlue.lean) -/
+
+def parseAtom (s : String) : Option Atom :=
+  if s = "z" then some .none
+  else if s = "b0" then some (.bool false)
+  else if s = "b1" then some (.bool true)
+  else match s.toList with
+    | 't' :: r => (decodeS (String.ofList r)).map .text
+    | 'i' :: r => (String.ofList r).toNat?.map (.int false)
+    | 'j' :: r => (String.ofList r).toNat?.map (.int true)
+    | _ => none
+
+def parseInst (s : String) : Option Inst :=
+  match s.toList with
+  | 'N' :: r => (parseAtom (String.ofList r)).map .named
+  | _ => (parseAtom s).map .plain
+
+def parseStrList (s : String) : Option (List Str) :=
+  if s = "!" then some [] else (splitOnChar s '|').mapM decodeS
+
+def parseOVal (s : String) : Option OVal :=
+  match s.toList with
+  | 's' :: r => (decodeS (String.ofList r)).map .str
+  | ['b', '0'] => some (.bool false)
+  | ['b', '1'] => some (.bool true)
+  | 'n' :: r => (String.ofList r).toNat?.map .num
+  | 'l' :: r => (parseStrList (String.ofList r)).map .list
+  | 'd' :: r =>
+    let body := String.ofList r
+    if body = "!" then some (.dict []) else
+    ((splitOnChar body '/').mapM fun ent =>
+      match splitOnChar ent '~' with
+      | [k, v] => do
+        let k ← decodeS k
+        let v ← parseStrList v
+        pure (k, v)
+      | _ => none).map .dict
+  | _ => none
+
+def parseOverrides (s : String) : Option (List (Str × OVal)) :=
+  if s = "!" then some [] else
+  (splitOnChar s '&').mapM fun kv =>
+    match splitOnChar kv '=' with
+    | [k, v] => do
+      let k ← decodeS k
+      let v ← parseOVal v
+      pure (k, v)
+    | _ => none
+
+def parseRxTable (s : String) : Option (List (Str × Re)) :=
+  if s = "!" then some [] else
+  (splitOnChar s '&').mapM fun kv =>
+    match splitOnChar kv '=' with
+    | [k, w] => do
+      let k ← decodeS k
+      match parseRe (splitOnChar w ',') with
+      | some (re, []) => pure (k, re)
+      | _ => none
+    | _ => none
+
+def wordHash (w : Str) : Nat := w.foldl (fun acc c => (acc * 257 + c + 1) % 1000000007) 7
+def listHash (l : List Str) : Nat := l.foldl (fun acc w => (acc * 131 + wordHash w) % 1000000007) 11
+
+def showAErr : AErr → String
+  | .keyError => "key-error"
+  | .anyKeyReserved => "any-key-reserved"
+  | .reError => "re-error"
+  | .dangling => "dangling"
+  | .unsupported => "unsupported"
+
+def showUErr : UErr → String
+  | .noContext => "no-context"
+  | .noLanguage => "no-language"
+  | .assembly e => "assembly:" ++ showAErr e
+  | .strop .valueError => "value"
+  | .strop .illegalToken => "illegal-token"
+  | .strop .unstableEncoding => "unstable-encoding"
+
+/-- canonical number of a list object among the objects seen so far -/
+def objNumber (seen : List Nat) (a : Nat) : List Nat × Nat :=
+  match seen.idxOf? a with
+  | some i => (seen, i)
+  | none => (seen ++ [a], seen.length)
+
+def observe (p : Proc) (ci : Nat) : String :=
+  match p.ctxs[ci]? with
+  | none => "err no-context"
+  | some ctx =>
+    let go := ctx.sections.foldl (init := (([] : List Nat), ([] : List String))) fun (acc : List Nat × List String) ent =>
+      let (lang, sec) := ent
+      let (seen, objs, len, hsh) :=
+        match getList sec kReserved with
+        | some a =>
+          let (seen', i) := objNumber acc.1 a
+          let l := (p.heap[a]?).getD []
+          (seen', toString i, l.length, listHash l)
+        | none => (acc.1, "-", 0, listHash [])
+      let encs :=
+        match aget ctx.encs lang with
+        | none => "none,0,0"
+        | some ei =>
+          match p.encoders[ei]? with
+          | none => "missing,0,0"
+          | some e =>
+            let l := (p.heap[e.reserved]?).getD []
+            let same := getList sec kReserved = some e.reserved
+            let tag := if same then "same" else "own"
+            s!"{tag},{l.length},{listHash l}"
+      (seen, acc.2 ++ [s!"{encodeS lang}={objs},{len},{hsh},{encs}"])
+    "|".intercalate go.2
+
+def histStep (env : Env) (p : Proc) (op : String) : Proc × String :=
+  match splitOnChar op ':' with
+  | ["L", target, ov] =>
+    match decodeS target, parseOverrides ov with
+    | some t, some ov =>
+      (match load env p t ov with
+       | .ok p' => (p', s!"ctx {p.ctxs.length}")
+       | .error e => (p, "err " ++ showAErr e))
+    | _, _ => (p, "bad-op")
+  | ["U", ci, lang, inst, ty] =>
+    match ci.toNat?, decodeS lang, parseInst inst, decodeS ty with
+    | some ci, some lang, some inst, some ty =>
+      let (p', o) := use env p ci lang inst ty
+      let tail := s!"{if o.built then 1 else 0} {if o.hit then 1 else 0} {p'.hits} {p'.misses} {p'.lru.length}"
+      (match o.result with
+       | .ok r => (p', s!"ok {encodeS r} {tail}")
+       | .error e => (p', s!"err {showUErr e} {tail}"))
+    | _, _, _, _ => (p, "bad-op")
+  | ["O", ci] =>
+    match ci.toNat? with
+    | some ci => (p, observe p ci)
+    | none => (p, "bad-op")
+  | _ => (p, "bad-op")
+
+def runHist (maxsize : String) (rx : String) (ops : String) : String :=
+  match maxsize.toNat?, parseRxTable rx with
+  | some m, some extra =>
+    let comp : Str → Option Re := fun s =>
+      match aget extra s with
+      | some r => some r
+      | none => Gen.StropGlue.compile s
+    let env : Env := ⟨rangesIsSpace, comp, m, Gen.StropGlue.doc, Gen.StropGlue.codeOf⟩
+    let r := (splitOnChar ops ';').foldl (init := (Proc.init, ([] : List String))) fun acc op =>
+      let (p', a) := histStep env acc.1 op
+      (p', a :: acc.2)
+    ";".intercalate r.2.reverse
+  | _, _ => "bad-op"
+
 def answer (line : String) : String :=
   match line.splitOn " " with
   | ["strop", lang, ty, tok] =>
@@ -153,6 +315,11 @@ def answer (line : String) : String :=
       | some l => (match l[i]? with | some re => rxOp re op s | none => "bad-op")
       | none => "bad-op"
     | _, _, _, _ => "bad-op"
+  | ["rawname", inst] =>
+    match parseInst inst with
+    | some i => encodeS (rawName i)
+    | none => "bad-op"
+  | ["hist", maxsize, rx, ops] => runHist maxsize rx ops
   | ["rx", wire, op, s] =>
     match parseRe (splitOnChar wire ','), decodeS s with
     | some (re, []), some s => rxOp re op s
